@@ -72,3 +72,27 @@ Theorem C09_nothing_right_of_bound_difference :
   (forall r v, In r a -> In v r -> in_box a0 b0 a1 b1 v) ->
   (a1 < Slab.qx p)%Q -> (inside_eo a p && negb (inside_eo b p))%bool = false.
 Proof. exact nothing_right_of_bound_difference. Qed.
+
+(** "results agree whether or not the bounding-box shortcut is taken" is a statement about the
+    region: the even-odd region of a set of rings depends only on the multiset of its edges, so a
+    hole that touches its exterior in a vertex denotes the same region as a ring of its own (the
+    shortcut returns the operand as given) and threaded into the exterior ring through that vertex
+    (the sweep's contour stage).  The run-time comparison of the two results is therefore made on
+    boundaries, not on rings (DESIGN 14.2 (ix)). *)
+From Coq Require Import Permutation.
+From GB Require Import BoundaryRegion.
+Theorem C09_region_depends_on_edges_only :
+  forall rs1 rs2 : list Slab.ring,
+  Permutation (flat_map Slab.ring_edges rs1) (flat_map Slab.ring_edges rs2) ->
+  forall p, Slab.inside_eo rs1 p = Slab.inside_eo rs2 p.
+Proof. exact eo_depends_on_edges_only. Qed.
+
+Theorem C09_thread_unfold :
+  forall e0 pre v h post, thread e0 pre v h post = e0 :: pre ++ v :: h ++ v :: post.
+Proof. exact (fun e0 pre v h post => eq_refl). Qed.
+
+Theorem C09_threaded_hole_same_region :
+  forall (e0 : Slab.qpt) (pre : list Slab.qpt) (v : Slab.qpt) (h post : list Slab.qpt) (rs : list Slab.ring) p,
+  Slab.inside_eo (thread e0 pre v h post :: rs) p
+  = Slab.inside_eo ((e0 :: pre ++ v :: post) :: (v :: h) :: rs) p.
+Proof. exact threaded_ring_same_region. Qed.
